@@ -1,7 +1,10 @@
 #!/usr/bin/env python3
-"""Copy the round-2 sub-agent seeds from /tmp/wt2/<ID>/seed<k> to /verif/seeded/<ID>-<3+k>."""
+"""Copy sub-agent seeds from $SEED_SRC/<ID>/seed<k> (default /tmp/wt2) to
+/verif/seeded/<ID>-<$SEED_OFFSET + k> (default offset 3, round $SEED_ROUND)."""
 import json, os, shutil, sys
-SRC = "/tmp/wt2"
+SRC = os.environ.get("SEED_SRC", "/tmp/wt2")
+OFFSET = int(os.environ.get("SEED_OFFSET", "3"))
+ROUND = int(os.environ.get("SEED_ROUND", "2"))
 DST = os.path.join(os.path.dirname(os.path.dirname(os.path.abspath(__file__))), "seeded")
 for pid in sorted(sys.argv[1:] or [d for d in os.listdir(SRC) if os.path.isdir(os.path.join(SRC, d))]):
     for k in (1, 2, 3):
@@ -9,7 +12,7 @@ for pid in sorted(sys.argv[1:] or [d for d in os.listdir(SRC) if os.path.isdir(o
         if not (os.path.isfile(os.path.join(sd, "patch.diff")) and
                 os.path.isfile(os.path.join(sd, "demo.py"))):
             continue
-        name = f"{pid}-{3 + k}"
+        name = f"{pid}-{OFFSET + k}"
         dd = os.path.join(DST, name)
         if os.path.exists(dd):
             shutil.rmtree(dd)
@@ -19,6 +22,6 @@ for pid in sorted(sys.argv[1:] or [d for d in os.listdir(SRC) if os.path.isdir(o
             meta = json.load(open(mp))
         except Exception:
             meta = {"property": pid}
-        meta["round"] = 2
+        meta["round"] = ROUND
         json.dump(meta, open(mp, "w"), indent=1)
         print("collected", name)
